@@ -421,7 +421,10 @@ Record epoch_in := mkIn {
   i_vrf : option vrf_in;                   (* Some: beacon backend VRF *)
   i_base : N;                              (* base epoch *)
   i_changed : bool;                        (* the epoch changed in this block *)
-  i_slashed : bool                         (* a staking TakeEscrowEvent was emitted in this block *)
+  i_slashed : bool;                        (* a staking TakeEscrowEvent was already emitted in this block *)
+  i_slashes : list (N * N * option (N * N))
+     (* slashing before the scheduler's BeginBlock (staking onEvidence, roothash):
+        (entity address, amount, node to freeze: (id, FreezeEndTime)) *)
 }.
 
 Inductive epoch_out :=
@@ -437,6 +440,30 @@ Definition should_elect (base epoch : N) (changed slashed : bool) : bool * bool 
   else (false, false).
 
 Definition tbl_of (m : list (N * N)) : N -> option N := fun id => aget id m.
+
+(* ---------- slashing inside a block (staking/state SlashEscrow, staking/slashing.go) ----------
+   The escrow loses min(amount, balance) (no debonding pool in the model); a
+   TakeEscrowEvent is emitted iff something was taken; the offending node is
+   frozen.  The scheduler then re-elects in the same block against the
+   post-slash state. *)
+Definition slash_one (addr amt : N) (e : entity) : entity :=
+  if e_addr e =? addr then mkEnt (e_addr e) (e_escrow e - amt) (e_claims e) else e.
+Definition freeze_one (id until : N) (n : node) : node :=
+  if n_id n =? id
+  then mkNode (n_id n) (n_ent n) (n_cons n) (n_roles n) (n_exp n) until (n_elig n) (n_rts n) (n_faults n)
+  else n.
+Definition slash_op := (N * N * option (N * N))%type.
+Definition apply_slash (st : list entity * list node * bool) (s : slash_op) : list entity * list node * bool :=
+  let '(ents, nodes, fl) := st in
+  let '(addr, amt, fr) := s in
+  (map (slash_one addr amt) ents,
+   match fr with Some (id, until) => map (freeze_one id until) nodes | None => nodes end,
+   fl || (0 <? N.min amt (escrow_of ents addr))).
+Definition post_state (i : epoch_in) : list entity * list node * bool :=
+  fold_left apply_slash (i_slashes i) (i_ents i, i_nodes i, i_slashed i).
+Definition post_ents (i : epoch_in) : list entity := fst (fst (post_state i)).
+Definition post_nodes (i : epoch_in) : list node := snd (fst (post_state i)).
+Definition post_slashed (i : epoch_in) : bool := snd (post_state i).
 
 Fixpoint elect_committees (fv261 : bool) (p : params) (ents : list entity) (vents : list N) (epoch : N)
   (cnodes : list node) (blocked : bool) (rts : list runtime) (srcs : list (shuffle_src * shuffle_src))
@@ -481,9 +508,9 @@ Definition committee_nodes (i : epoch_in) (nodes : list node) : list node :=
    the nodes ordered by ID and the accounts by address whatever the order in
    which they were written. *)
 Definition run_epoch (i : epoch_in) : epoch_out :=
-  let nodes := sort_by n_id (i_nodes i) in
-  let ents := sort_by e_addr (i_ents i) in
-  if negb (fst (should_elect (i_base i) (i_epoch i) (i_changed i) (i_slashed i))) then ESkip else
+  let nodes := sort_by n_id (post_nodes i) in
+  let ents := sort_by e_addr (post_ents i) in
+  if negb (fst (should_elect (i_base i) (i_epoch i) (i_changed i) (post_slashed i))) then ESkip else
   match elect_validators_t (i_params i) ents (i_epoch i) nodes (i_perm_e i) (i_perm_n i) (i_vrf i) with
   | VErrPower => EErr 1
   | VErrNone => EErr 2
